@@ -1,6 +1,42 @@
 import GlmVerif.Sem.Family
 import GlmVerif.Spec.C02
 import GlmVerif.Gen.C02
+import GlmVerif.Props.C02.T_mul
+import GlmVerif.Props.C02.T_asgmul_m
+import GlmVerif.Props.C02.T_mulmv
+import GlmVerif.Props.C02.T_mulvm
+import GlmVerif.Props.C02.T_transpose
+import GlmVerif.Props.C02.T_outer
+import GlmVerif.Props.C02.T_compmult
+import GlmVerif.Props.C02.T_addmm
+import GlmVerif.Props.C02.T_submm
+import GlmVerif.Props.C02.T_addms
+import GlmVerif.Props.C02.T_addsm
+import GlmVerif.Props.C02.T_subms
+import GlmVerif.Props.C02.T_subsm
+import GlmVerif.Props.C02.T_mulms
+import GlmVerif.Props.C02.T_mulsm
+import GlmVerif.Props.C02.T_divms
+import GlmVerif.Props.C02.T_divsm
+import GlmVerif.Props.C02.T_negm
+import GlmVerif.Props.C02.T_posm
+import GlmVerif.Props.C02.T_preinc
+import GlmVerif.Props.C02.T_predec
+import GlmVerif.Props.C02.T_postinc
+import GlmVerif.Props.C02.T_postdec
+import GlmVerif.Props.C02.T_asgadd_m
+import GlmVerif.Props.C02.T_asgsub_m
+import GlmVerif.Props.C02.T_asgadd_s
+import GlmVerif.Props.C02.T_asgsub_s
+import GlmVerif.Props.C02.T_asgmul_s
+import GlmVerif.Props.C02.T_asgdiv_s
+import GlmVerif.Props.C02.T_asg_m
+import GlmVerif.Props.C02.T_row_get
+import GlmVerif.Props.C02.T_row_set
+import GlmVerif.Props.C02.T_col_get
+import GlmVerif.Props.C02.T_col_set
+import GlmVerif.Props.C02.T_ctor_diag
+import GlmVerif.Props.C02.T_conv
 /-!
 # C02 — matrix operators/functions implement column-major linear algebra
 
@@ -14,42 +50,6 @@ every field of characteristic zero, for every value of every entry.
 namespace Glm.Props.C02
 open Glm Glm.Spec.C02 Glm.Gen.C02
 
-theorem mul_ok : f_mul.ok lookup = true := by decide +kernel
-theorem asgmul_m_ok : f_asgmul_m.ok lookup = true := by decide +kernel
-theorem mulmv_ok : f_mulmv.ok lookup = true := by decide +kernel
-theorem mulvm_ok : f_mulvm.ok lookup = true := by decide +kernel
-theorem transpose_ok : f_transpose.ok lookup = true := by decide +kernel
-theorem outer_ok : f_outer.ok lookup = true := by decide +kernel
-theorem compmult_ok : f_compmult.ok lookup = true := by decide +kernel
-theorem addmm_ok : f_addmm.ok lookup = true := by decide +kernel
-theorem submm_ok : f_submm.ok lookup = true := by decide +kernel
-theorem addms_ok : f_addms.ok lookup = true := by decide +kernel
-theorem addsm_ok : f_addsm.ok lookup = true := by decide +kernel
-theorem subms_ok : f_subms.ok lookup = true := by decide +kernel
-theorem subsm_ok : f_subsm.ok lookup = true := by decide +kernel
-theorem mulms_ok : f_mulms.ok lookup = true := by decide +kernel
-theorem mulsm_ok : f_mulsm.ok lookup = true := by decide +kernel
-theorem divms_ok : f_divms.ok lookup = true := by decide +kernel
-theorem divsm_ok : f_divsm.ok lookup = true := by decide +kernel
-theorem negm_ok : f_negm.ok lookup = true := by decide +kernel
-theorem posm_ok : f_posm.ok lookup = true := by decide +kernel
-theorem preinc_ok : f_preinc.ok lookup = true := by decide +kernel
-theorem predec_ok : f_predec.ok lookup = true := by decide +kernel
-theorem postinc_ok : f_postinc.ok lookup = true := by decide +kernel
-theorem postdec_ok : f_postdec.ok lookup = true := by decide +kernel
-theorem asgadd_m_ok : f_asgadd_m.ok lookup = true := by decide +kernel
-theorem asgsub_m_ok : f_asgsub_m.ok lookup = true := by decide +kernel
-theorem asgadd_s_ok : f_asgadd_s.ok lookup = true := by decide +kernel
-theorem asgsub_s_ok : f_asgsub_s.ok lookup = true := by decide +kernel
-theorem asgmul_s_ok : f_asgmul_s.ok lookup = true := by decide +kernel
-theorem asgdiv_s_ok : f_asgdiv_s.ok lookup = true := by decide +kernel
-theorem asg_m_ok : f_asg_m.ok lookup = true := by decide +kernel
-theorem row_get_ok : f_row_get.ok lookup = true := by decide +kernel
-theorem row_set_ok : f_row_set.ok lookup = true := by decide +kernel
-theorem col_get_ok : f_col_get.ok lookup = true := by decide +kernel
-theorem col_set_ok : f_col_set.ok lookup = true := by decide +kernel
-theorem ctor_diag_ok : f_ctor_diag.ok lookup = true := by decide +kernel
-theorem conv_ok : f_conv.ok lookup = true := by decide +kernel
 
 /-- every family table of C02 holds for the model generated from the current /repo -/
 theorem all_ok : ∀ f ∈ families, f.ok lookup = true := by
@@ -76,8 +76,8 @@ theorem matmul_correct (C R C2 : Nat) (hs : [C, R, C2] ∈ shapes3) (c r : Nat) 
       _ = (c + 1) * R := by ring
       _ ≤ C2 * R := Nat.mul_le_mul_right R hc
   have := Family.poly_sound (R := R') ringOps_ringLike mul_ok rfl (ks := [C, R, C2]) hs hj env
-  rw [show f_mul.name = "mul" from rfl] at this
-  rw [this]
+  rw [show lookup "mul" [C, R, C2] = lookup f_mul.unit [C, R, C2] from rfl, Family.out_eval _ mul_ok hs]
+  refine this.trans ?_
   show (mul C R C2 (c * R + r)).eval (ringOps R') env = _
   have h1 : (c * R + r) % R = r := by rw [Nat.mul_comm, Nat.mul_add_mod]; exact Nat.mod_eq_of_lt hr
   have h2 : (c * R + r) / R = c := by
@@ -90,8 +90,8 @@ theorem matvec_correct (C R : Nat) (hs : [C, R] ∈ shapes) (r : Nat) (hr : r < 
     ((lookup "mulmv" [C, R]).out r).eval (ringOps R') env
       = ((List.range C).map fun c => env (c * R + r) * env (C * R + c)).sum := by
   have := Family.poly_sound (R := R') ringOps_ringLike mulmv_ok rfl (ks := [C, R]) hs (j := r) hr env
-  rw [show f_mulmv.name = "mulmv" from rfl] at this
-  rw [this]
+  rw [show lookup "mulmv" [C, R] = lookup f_mulmv.unit [C, R] from rfl, Family.out_eval _ mulmv_ok hs]
+  refine this.trans ?_
   show (mulmv C R r).eval (ringOps R') env = _
   simp only [mulmv, sumE_eval, List.map_map]
   rfl
@@ -101,8 +101,8 @@ theorem vecmat_correct (C R : Nat) (hs : [C, R] ∈ shapes) (c : Nat) (hc : c < 
     ((lookup "mulvm" [C, R]).out c).eval (ringOps R') env
       = ((List.range R).map fun r => env r * env (R + c * R + r)).sum := by
   have := Family.poly_sound (R := R') ringOps_ringLike mulvm_ok rfl (ks := [C, R]) hs (j := c) hc env
-  rw [show f_mulvm.name = "mulvm" from rfl] at this
-  rw [this]
+  rw [show lookup "mulvm" [C, R] = lookup f_mulvm.unit [C, R] from rfl, Family.out_eval _ mulvm_ok hs]
+  refine this.trans ?_
   show (mulvm C R c).eval (ringOps R') env = _
   simp only [mulvm, sumE_eval, List.map_map]
   rfl
@@ -119,8 +119,8 @@ theorem conv_correct {α : Type} (o : Ops α) (C R C2 R2 : Nat) (hs : [C, R, C2,
       _ = (c + 1) * R := by ring
       _ ≤ C * R := Nat.mul_le_mul_right R hc
   have := Family.syn_sound o conv_ok rfl (ks := [C, R, C2, R2]) hs hj env
-  rw [show f_conv.name = "conv" from rfl] at this
-  rw [this]
+  rw [show lookup "conv" [C, R, C2, R2] = lookup f_conv.unit [C, R, C2, R2] from rfl, Family.out_eval _ conv_ok hs]
+  refine this.trans ?_
   show (conv C R C2 R2 (c * R + r)).eval o env = _
   have h1 : (c * R + r) % R = r := by rw [Nat.mul_comm, Nat.mul_add_mod]; exact Nat.mod_eq_of_lt hr
   have h2 : (c * R + r) / R = c := by
@@ -134,13 +134,13 @@ theorem conv_correct {α : Type} (o : Ops α) (C R C2 R2 : Nat) (hs : [C, R, C2,
 `poly` family equals its textbook definition in every commutative ring, for every input. -/
 theorem poly_families_correct (f : Family) (hf : f ∈ families) (hk : f.kind = .poly)
     (ks : List Nat) (hks : ks ∈ f.keys) (j : Nat) (hj : j < f.nOut ks) (env : Nat → R') :
-    ((lookup f.name ks).out j).eval (ringOps R') env = (f.spec ks j).eval (ringOps R') env :=
+    (f.post ks (lookup f.unit ks).outE j).eval (ringOps R') env = (f.spec ks j).eval (ringOps R') env :=
   Family.poly_sound ringOps_ringLike (all_ok f hf) hk hks hj env
 
 /-- the same for the `syn` families (access, assignment, conversions, constructors), in every semantics -/
 theorem syn_families_correct {α : Type} (o : Ops α) (f : Family) (hf : f ∈ families) (hk : f.kind = .syn)
     (ks : List Nat) (hks : ks ∈ f.keys) (j : Nat) (hj : j < f.nOut ks) (env : Nat → α) :
-    ((lookup f.name ks).out j).eval o env = (f.spec ks j).eval o env :=
+    (f.post ks (lookup f.unit ks).outE j).eval o env = (f.spec ks j).eval o env :=
   Family.syn_sound o (all_ok f hf) hk hks hj env
 
 /-- and for division by / of a scalar, in every field of characteristic zero, whenever the divisors
@@ -149,8 +149,8 @@ theorem frac_families_correct {K : Type} [Field K] [CharZero K] (f : Family) (hf
     (hk : f.kind = .frac) (ks : List Nat) (hks : ks ∈ f.keys) (j : Nat) (hj : j < f.nOut ks)
     (env : Nat → K)
     (hall : ∀ a ∈ f.allowed ks, a.divOK (fieldOps K) env ∧ a.eval (fieldOps K) env ≠ 0) :
-    ((lookup f.name ks).out j).eval (fieldOps K) env = (f.spec ks j).eval (fieldOps K) env :=
-  Family.frac_sound fieldOps_fieldLike (all_ok f hf) hk hks hj env hall
+    (f.post ks (lookup f.unit ks).outE j).eval (fieldOps K) env = (f.spec ks j).eval (fieldOps K) env :=
+  (Family.frac_sound fieldOps_fieldLike (all_ok f hf) hk hks hj env hall).2
 
 /-- non-vacuity: the tables are not empty and the units are not the default unit -/
 example : (lookup "mul" [4, 3, 4]).nIn = 28 ∧ (lookup "mul" [4, 3, 4]).outs.length = 12 ∧
